@@ -12,6 +12,7 @@ import re
 
 from sa.consteval import ConstEval, NotConstant
 from sa.paths import Engine, NeedFork, Unsupported, exc_covered, explore, show_sv, strip_epoch
+SELF = ("self0",)
 from sa.hdlcmodel import HdlcModel
 from sa.hdlcref import buffer_contracts as hdlc_buffer, skeleton as hdlc_skeleton
 from sa import p1model
@@ -249,6 +250,7 @@ def check(src, rep):
     except Undecided as e:
         hm, hdlc_pop_ok, hm_why = None, False, str(e)
     pm = p1model.P1Model(src)
+    input_fields = {x for x in ((hm.roles.buffer if hm is not None else None), getattr(pm, "buffer", None)) if x}
     p1_rows = {r.instance: r.kind for r in p1model.conformance(pm)}
     p1_lines_typestate = all(p1_rows.get(k) == "ok" for k in ("ident", "end", "keep", "ignore-nonslash", "ignore-nonident"))
     p1_pop_ok = any(r.kind == "ok" and r.instance == "pop" for r in p1model.buffer_contracts(pm))
@@ -304,8 +306,10 @@ def check(src, rep):
                         continue
                     if not exc_covered(cls, hs):
                         # an assert is a claim of its author; when the facts of the path do not settle it, it is not known to fire either: undecided, not a violation
-                        report(cls != "AssertionError", cls, "raise" if cls != "AssertionError" else "assert", e[4] if len(e) > 4 else fnq_default, e[2],
-                               f"raise {cls}" if cls != "AssertionError" else "(an `assert` whose condition the path does not establish)", entry)
+                        refuted = cls == "AssertionError" and len(e) > 5 and e[5] == "certain"
+                        report(cls != "AssertionError" or refuted, cls, "raise" if cls != "AssertionError" else "assert", e[4] if len(e) > 4 else fnq_default, e[2],
+                               f"raise {cls}" if cls != "AssertionError" else "an `assert` whose condition is false on a path that reaches it" if refuted else
+                               "(an `assert` whose condition the path does not establish)", entry)
                 if e[0] != "xsite":
                     continue
                 n_sites += 1
@@ -385,6 +389,19 @@ def check(src, rep):
     def engine(**kw):
         return Engine(M, inline_depth=8, fork_props=True, split_ifexp=True, track_exc=True, **kw)
 
+    # ---- the readers interpreted on sample streams: an exception that leaves read() there is a witness (and an unproven assert that never fires there stays unproven)
+    n_smp_bad = 0
+    for rec_ in _sample_escapes(M, src):
+        if rec_[0] is None:
+            rep.notes.append(f"R1 sample streams: {rec_[1]}")
+            continue
+        ent_, cls_, wit_ = rec_
+        n_smp_bad += 1
+        fq_ = M.funcs.get(ent_)
+        bad += 1
+        rep.violation("R1", ent_, f"escape:{cls_}:sample-stream", f"{cls_} leaves {ent_.split('.', 1)[1]}() on a sample stream", src.file(ent_.split(".")[0]), fq_.node.lineno if fq_ else 1, witness=wit_)
+    if not n_smp_bad:
+        rep.ok("R1", "sample streams", "both readers interpreted (E-ABS) on noise / truncated / damaged / valid sample streams under three splittings (HDLC: four configurations): read() returns every time")
     # ---- readers: read() with the helpers of the reader inlined, buffer / frame methods as contracts
     for q in ("hdlc.HdlcFrameReader.read", "dlde.ModeDReader.read"):
         fn = M.funcs.get(q)
@@ -471,6 +488,66 @@ def check(src, rep):
         rep.ok("R2", "read loops", "each HDLC step consumes exactly one octet under the loop test; each P1 step pops one line and the loop exits exactly when no complete line is left")
     else:
         rep.violation("R2", "reader loops", "no-progress", "a read loop iteration does not consume exactly one octet / line (or the P1 loop has no exit on an empty buffer)", src.file("hdlc"), 1)
+
+
+_SAMPLE_MEMO = {}
+
+
+def _sample_escapes(M, src):
+    """the two readers interpreted (E-ABS) on concrete sample streams - noise, truncated / damaged / valid messages - under three splittings and, for HDLC, the four
+    configurations: [(entry, exception class, witness)] for every exception that leaves read(); (None, why) entries when the interpretation gives up"""
+    key = id(src)
+    if key in _SAMPLE_MEMO and _SAMPLE_MEMO[key][0] is src:
+        return _SAMPLE_MEMO[key][1]
+    from sa.abseval import AbsEval
+    out = []
+    good = bytes.fromhex("7ea02a410883130413e6e7000f40000000000101020309060100010700ff060000046202020f00161b6f887e")
+    hdlc_samples = [b"A", b"\x7e", b"\x7eA", good, good[:10], b"\x7e\x7e", b"noise" + good + good[1:], b"\x7e\x7d\x7e" + good, b"\x7e" + b"\x00" * 30 + b"\x7e", good[:-3] + b"\x7d\x7e" + good,
+                    b"\x7e\xa0\x00\x7e", b"\x7e\x7d", b"\x7d\x7e\x7d\x5e\x7e"]
+    body = b"/ABC5x\r\n1-0:1.8.0(000123.456*kWh)\r\n!"
+    crc = 0
+    for x in body:
+        crc ^= x
+        for _ in range(8):
+            crc = (crc >> 1) ^ 0xA001 if crc & 1 else crc >> 1
+    rd_good = body + b"%04X\r\n" % crc
+    p1_samples = [b"A", b"/", b"\n", b"/\n", rd_good, rd_good * 2, b"8\r\n" + rd_good, b"/ABC5\xff\r\n!\r\n", b"/ABC5x\r\n\xff\xfe\r\n!00\r\n", b"/ABC5x\r\n!zz\r\n" + rd_good, b"!\r\n" + rd_good,
+                  b"/ABC5x\r\n" + b"!\r\n", b"\r\n\r\n/\r\n!\r\n", b"/ABC5x\r\n!\xff\r\n" + rd_good, b"//ABC5x\r\n!!\r\n"]
+
+    def splits(smp, full=True):
+        yield [smp]
+        if len(smp) > 1 and full:
+            yield [smp[:len(smp) // 2], smp[len(smp) // 2:], b""]
+        if 1 < len(smp) <= 60 and full:
+            yield [smp[i:i + 1] for i in range(len(smp))]
+
+    def run(ck, ctor_args, samples, entry):
+        rd = M.find_method(ck, "read")
+        if rd is None:
+            return
+        for smp in samples:
+            for chunks in splits(smp, full=ctor_args in ((), (False, True), (True, False))):
+                A = AbsEval(M)
+                A.external_calls_opaque = True
+                try:
+                    obj = A.instantiate(ck, list(ctor_args))
+                except Exception as ex:  # noqa
+                    out.append((None, f"{ck[1]}() outside the interpreted subset: {type(ex).__name__}"))
+                    return
+                for c_ in chunks:
+                    r = A.apply(rd, [obj, c_])
+                    if r[0] == "raise":
+                        out.append((entry, r[1], f"{ck[1]}({', '.join(map(str, ctor_args))}).read() fed {smp!r} as {len(chunks)} chunk(s): raises at chunk {c_!r}"[:300]))
+                        return
+                    if r[0] in ("undecided", "branch"):
+                        out.append((None, f"{entry} outside the interpreted subset on a sample stream: {r[1]!r}"[:200]))
+                        return
+    for st in (False, True):
+        for ab in (False, True):
+            run(("hdlc", "HdlcFrameReader"), (st, ab), hdlc_samples, "hdlc.HdlcFrameReader.read")
+    run(("dlde", "ModeDReader"), (), p1_samples, "dlde.ModeDReader.read")
+    _SAMPLE_MEMO[key] = (src, out)
+    return out
 
 
 def _strip_ver(sv):
